@@ -104,7 +104,7 @@ mk_global  xor_gen_avx, function
 func(xor_gen_avx)
 
 	FUNC_SAVE
-	sub	vec, 2			;Keep as offset to last source
+	sub	DWORD(vec), 2			;Keep as offset to last source (vects is an int: a negative count fails the test below)
 	jng	return_fail		;Must have at least 2 sources
 	cmp	len, 0
 	je	return_pass
